@@ -385,6 +385,15 @@ func runCheck(prop, tier string) int {
 		writeJSON(path, mf)
 		desc := fmt.Sprintf("%s :: %s %q tags=%v (paths: %d)", p.h.Name, f.Kind, f.Label, f.Tags, p.g.Count)
 		switch {
+		case !ok && p.kf != nil:
+			// a recorded finding (natively reproduced when it was recorded) whose schedule could not be forced
+			// this time: still the recorded finding, not a new alarm and not a reason to distrust the run
+			if !knownPrinted[p.kf.ID] {
+				knownPrinted[p.kf.ID] = true
+				line := fmt.Sprintf("KNOWN-FINDING: property=%s %s [%s] (not re-confirmed natively in this run: %s)", prop, p.kf.What, p.kf.ID, why)
+				out.known = append(out.known, line)
+				fmt.Println(line)
+			}
 		case !ok:
 			out.inconclusive = append(out.inconclusive, fmt.Sprintf("counterexample did not reproduce natively: %s — %s; replay=%s", desc, why, path))
 		case p.kf != nil:
